@@ -391,8 +391,10 @@ class RenderContext:
     ) -> Iterator[RenderContext]:
         """Just like `Context.extend`, but keeps track of ForLoop objects too."""
         self.raise_for_loop_limit(forloop.length)
-        self.loops.append(forloop)
         with self.extend(namespace) as context:
+            # Push the loop only once the context has been extended. If `extend`
+            # raises a `ContextDepthError`, there is nothing to pop.
+            self.loops.append(forloop)
             try:
                 yield context
             finally:
